@@ -465,7 +465,7 @@ func (e *Evaluator) runHook(fn *ssa.Function, fr *frame, hook func(*ssa.Call, an
 							if !isC {
 								return nil, fmt.Errorf("%s: non-constant table key", fn.Name())
 							}
-							pv.t.rawSet(fieldNameOf(fa), key)
+							pv.t.rawSet(e.P, fieldNameOf(fa), key)
 							continue
 						}
 					}
@@ -550,11 +550,15 @@ func (e *Evaluator) runHook(fn *ssa.Function, fr *frame, hook func(*ssa.Call, an
 
 func fieldNameOf(fa *ssa.FieldAddr) string { return pa.FieldName(fa) }
 
-func (t *Table) rawSet(field, key string) {
+// rawSet records a direct `p.<field>[key] = …` of the default-table fillers.  The field is identified by the role the
+// builder API gives it (the skip set is what SkipElementsContent updates, the bare set what AllowNoAttrs().OnElements
+// updates), not by its name.
+func (t *Table) rawSet(P *load.Program, field, key string) {
+	F := model.FindFields(P)
 	switch {
-	case strings.Contains(strings.ToLower(field), "skip"):
+	case F != nil && field == F.Get("skipSet"):
 		t.Skip[key] = true
-	case strings.Contains(strings.ToLower(field), "withoutattrs"):
+	case F != nil && field == F.Get("bareSet"):
 		t.Bare[key] = true
 	default:
 		t.Notes = append(t.Notes, "raw update of "+field+"["+key+"]")
